@@ -1,6 +1,6 @@
 SPECIFICATION Spec
 CONSTANTS
-  SecpPeers = {"a", "b"}
+  SecpPeers = {"a", "b", "sx", "sy"}
   OtherPeers = {"e"}
   BatchLen = 2
 INVARIANTS TypeOK Attributed Independent
